@@ -591,13 +591,45 @@ func alterable(modify *schema.ModifyTable) bool {
 func check(b *sqlx.Builder, c *schema.Check) {
 	expr := c.Expr
 	// Expressions should be wrapped with parens.
-	if t := strings.TrimSpace(expr); !strings.HasPrefix(t, "(") || !strings.HasSuffix(t, ")") {
+	if t := strings.TrimSpace(expr); !wrapped(t) {
 		expr = "(" + t + ")"
 	}
 	if c.Name != "" {
 		b.P("CONSTRAINT").Ident(c.Name)
 	}
 	b.P("CHECK", expr)
+}
+
+// wrapped reports if the expression is enclosed by one pair of parentheses.
+// For example, "(a > 0)" is wrapped, but "(a > 0) AND (b > 0)" is not.
+func wrapped(expr string) bool {
+	if len(expr) < 2 || expr[0] != '(' || expr[len(expr)-1] != ')' {
+		return false
+	}
+	depth := 0
+	for i := 0; i < len(expr); i++ {
+		switch c := expr[i]; c {
+		// Skip strings and quoted identifiers. Quotes are escaped
+		// by doubling them, what is seen as two consecutive strings.
+		case '\'', '"', '`', '[':
+			if c == '[' {
+				c = ']'
+			}
+			j := strings.IndexByte(expr[i+1:], c)
+			if j == -1 {
+				return false
+			}
+			i += j + 1
+		case '(':
+			depth++
+		case ')':
+			// The first parenthesis was closed before the end.
+			if depth--; depth == 0 && i != len(expr)-1 {
+				return false
+			}
+		}
+	}
+	return depth == 0
 }
 
 func autoincPK(pk *schema.Index) bool {
